@@ -400,7 +400,7 @@ func shortVals(l []interface{}) []string {
 func C16(tier string) int {
 	res := NewResult("C16", tier, "exploration")
 	cases := c16cases(res.Thorough())
-	res.Rule = fmt.Sprintf("Update: stored object with each subset of {name, content, summary, an unknown member} x update object assigning each member in {absent, new value, null}; two objects with every pair of independent assignments (81 x 81) and three-object triples; Delete: 1..%d objects of 3 types with/without published/updated, IRI/embedded, model clock; Add/Remove: every sequence of 1..%d objects (IRI/embedded) x every sequence of distinct targets over {owned Collection with duplicates, owned OrderedCollection with duplicates, foreign, a collection on the local host that another tenant owns, an owned collection on a foreign host}, the stored collections spelling their entries as IRIs or as a mixture of IRIs, embedded objects and a Link named by href; Like and Block with the same object sequences, Like also with its 'actor' naming another local actor / several actors / a remote actor / nobody (the ids go to the liked collection of the outbox's owner); each type with object/target absent or empty; Social-only and both protocols; every Like / Block and every third other request again with application hooks wrapped around the default callbacks; %d base requests; plus every ordered pair (thorough: a third of the triples) of single-object Add / Remove / Like requests as a history on ONE application, the reference model applied step by step; oracle: a reference model on JSON (merge + null deletion, Tombstone fields, collection edits on owned targets only, liked front insertion, Block undelivered, 400 and unchanged state for missing members)", map[bool]int{false: 2, true: 3}[res.Thorough()], map[bool]int{false: 2, true: 3}[res.Thorough()], len(cases))
+	res.Rule = fmt.Sprintf("Update: stored object with each subset of {name, content, summary, an unknown member} x update object assigning each member in {absent, new value, null}; two objects with every pair of independent assignments (81 x 81) and three-object triples; Delete: 1..%d objects of 3 types with/without published/updated, IRI/embedded, model clock; Add/Remove: every sequence of 1..%d objects (IRI/embedded) x every sequence of distinct targets over {owned Collection with duplicates, owned OrderedCollection with duplicates, foreign, a collection on the local host that another tenant owns, an owned collection on a foreign host}, the stored collections spelling their entries as IRIs or as a mixture of IRIs, embedded objects and a Link named by href; Like and Block with the same object sequences, Like also with its 'actor' naming another local actor / several actors / a remote actor / nobody (the ids go to the liked collection of the outbox's owner); each type with object/target absent or empty; Social-only and both protocols; every Like / Block and every third other request again with application hooks wrapped around the default callbacks; %d base requests; plus every ordered pair (thorough: a third of the triples) of single-object Add / Remove / Like requests as a history on ONE application, the reference model applied step by step, and every ordered pair of Updates of one stored object; oracle: a reference model on JSON (merge + null deletion, Tombstone fields, collection edits on owned targets only, liked front insertion, Block undelivered, 400 and unchanged state for missing members)", map[bool]int{false: 2, true: 3}[res.Thorough()], map[bool]int{false: 2, true: 3}[res.Thorough()], len(cases))
 	res.Assumptions = []string{"JSON nulls are looked for inside the activity's object (ActivityPub 6.3.1), which is what the statement's wording names", "the stored copy of the activity and the outbox entry are C05's",
 		"one collection named twice as target is excluded here (C09's known finding)"}
 	var mu sync.Mutex
@@ -593,6 +593,24 @@ func C16(tier string) int {
 						runHist([]c16case{c1, c2, c3})
 					}
 				}
+			}
+		}
+	}
+	// Update after Update on one stored object (every ordered pair of member assignments; quick: a third
+	// of the assignments), from a fully populated and from a bare stored object
+	for _, mask := range []string{"stored=1111 ", "stored=0000 "} {
+		var ups []c16case
+		for _, c := range cases {
+			if c.family == "update" && c.kind == ap.Both && strings.Contains(c.name, mask) && strings.Contains(c.name, "objects=1 ") {
+				ups = append(ups, c)
+			}
+		}
+		for i, c1 := range ups {
+			for j, c2 := range ups {
+				if !res.Thorough() && (i%3 != 0 || j%3 != 0) {
+					continue
+				}
+				runHist([]c16case{c1, c2})
 			}
 		}
 	}
